@@ -165,7 +165,10 @@ func writeClade(n *tree.Node, prev *tree.Node, e *tree.Edge, buf *bytes.Buffer, 
 
 	buf.WriteString(tab + "<clade>\n")
 	if n.Name() != "" {
-		buf.WriteString(fmt.Sprintf("%s<name>%s</name>\n", tab, n.Name()))
+		// Characters such as & or < are legal in a tree label but not in XML text
+		var name bytes.Buffer
+		xml.EscapeText(&name, []byte(n.Name()))
+		buf.WriteString(fmt.Sprintf("%s<name>%s</name>\n", tab, name.String()))
 	}
 	if prev != nil && e != nil {
 		if e.Length() != tree.NIL_LENGTH {
